@@ -231,6 +231,14 @@ func runRegistry(path []Op, log io.Writer) (string, *failure) {
 		}
 		return []*proxy{pp, px}
 	}
+	// Known exclusive-only findings (listed classes, see main.go/listedClasses): after
+	// registrations the watch did not see, the exclusive container may MISS a value whose latest
+	// key is registered. The search expands past such a state; from then on the missing value is
+	// "tainted": it may stay missing (same cause, same key) until a registration of that value is
+	// delivered by the watch — that re-establishes it by the statement (the key just put IS the
+	// most recent registration of the value), and it must be shown again, under a different key.
+	tainted := map[string]bool{}
+	var known *failure
 	for i, o := range path {
 		last := i == len(path)-1
 		np, nx := wp.notified, wx.notified
@@ -239,6 +247,26 @@ func runRegistry(path []Op, log io.Writer) (string, *failure) {
 			nl = wl.notified
 		}
 		cat, exec := st.apply(o)
+		known = nil
+		restored := map[string]bool{} // tainted values this step's watch events register again
+		if exec {
+			evs := []Op{o}
+			if o.K == "batch" {
+				evs = o.Batch
+			}
+			for _, e := range evs {
+				if e.K == "put" && tainted[e.Val] {
+					restored[e.Val] = true
+				}
+			}
+			// a later event of the same response may legitimately take the value away again
+			for v := range restored {
+				if !contains(st.r.exclusive(), v) {
+					delete(restored, v)
+				}
+				delete(tainted, v)
+			}
+		}
 		delivered := ""
 		if exec {
 			switch o.K {
@@ -307,7 +335,40 @@ func runRegistry(path []Op, log io.Writer) (string, *failure) {
 		if st.offPut {
 			xu = st.r.plain()
 		}
+		for v := range tainted {
+			if !contains(xl, v) {
+				delete(tainted, v) // no longer required: nothing left of the transient for this value
+			}
+		}
+		xlFull := xl
+		xl = without(xl, tainted)
 		objX, msgX := wx.checkView("exclusive listener", xl, xu, nx, true)
+		classX := ""
+		if objX != "" {
+			classX = exclusiveClass(st, classOf(wx, objX, cat, false, st.offPut))
+			cur := mustSet(wx.c.Values())
+			var hit []string
+			for v := range restored {
+				if !contains(cur, v) {
+					hit = append(hit, v)
+				}
+			}
+			switch {
+			case len(hit) > 0:
+				classX = "exclusive-only:value-not-restored-by-registration"
+				msgX = fmt.Sprintf("exclusive listener: a registration of %v was delivered by the watch, Values()=%s still misses it (registered values %s)", hit, show(cur), want(xlFull, xu))
+			case objX == "values" && listedClasses[classX] && admissible(cur, nil, xu):
+				// the known transient: only required values are missing; taint them and go on
+				for _, v := range xlFull {
+					if !contains(cur, v) {
+						tainted[v] = true
+					}
+				}
+				known = &failure{classX, msgX}
+				wx.shown = cur
+				objX = ""
+			}
+		}
 		objL, msgL := "", ""
 		if wl != nil {
 			objL, msgL = wl.checkView("late plain listener", st.r.plain(), st.r.plain(), nl, true)
@@ -328,7 +389,7 @@ func runRegistry(path []Op, log io.Writer) (string, *failure) {
 			case objL != "":
 				f = &failure{lateClass(wl, objL, cat), msgL}
 			case objX != "":
-				f = &failure{exclusiveClass(st, classOf(wx, objX, cat, false, st.offPut)), msgX}
+				f = &failure{classX, msgX}
 			}
 			if f != nil {
 				return "", f
@@ -339,7 +400,33 @@ func runRegistry(path []Op, log io.Writer) (string, *failure) {
 	if wl != nil {
 		key += fmt.Sprintf("|L%v%s", wl.shown, wl.c.Dump())
 	}
-	return key, nil
+	if len(tainted) > 0 {
+		m := map[string]bool{}
+		for v := range tainted {
+			m[v] = true
+		}
+		key += fmt.Sprintf("|T%v", setOf(m))
+	}
+	return key, known
+}
+
+func contains(l []string, x string) bool {
+	for _, e := range l {
+		if e == x {
+			return true
+		}
+	}
+	return false
+}
+
+func without(l []string, drop map[string]bool) []string {
+	out := []string{}
+	for _, e := range l {
+		if !drop[e] {
+			out = append(out, e)
+		}
+	}
+	return out
 }
 
 // exclusiveClass splits the failures only the exclusive listener shows after offline
